@@ -22,10 +22,23 @@ CHECKS = [
         "Deductive proof, for all inputs and any number of proposals, that the target computed by the real "
         "Matryoshka._calc_target_power is zero or inside the system inclusion bounds and outside the exclusion zone: "
         "contracts on the three _bounds functions and a loop invariant for the priority sweep, discharged by z3.",
-        REALS, "contract-based deductive verification (AST->VC generator, z3)", "DESIGN.md 3 (C03)"),
+        REALS + "; expiry (drop_old_proposals) only by a bounded native run of its contract; uniqueness of a strictly ordered arrangement assumed",
+        "contract-based deductive verification (AST->VC generator, z3)", "DESIGN.md 3 (C03)"),
+    chk("C04", "proof",
+        "Deductive proof that both sweeps (the target sweep and get_status) compute the same documented recurrences - running "
+        "range G and running target T, written from the property statement - for any number of conflict-free proposals: the "
+        "range reported to an actor is exactly the range in which its preferred power is clamped, and adjust_to_bounds is that clamp.",
+        REALS + "; conflict-free regime and exclusion-inside-inclusion required (the property's quantifier); sorted() modelled as a permutation ordered by the real __lt__ (proved a strict total order on keys)",
+        "contract-based deductive verification with ghost recurrences and loop invariants (z3)", "DESIGN.md 3 (C04)"),
+    chk("C11", "proof",
+        "Deductive proof that PowerManagingActor._calculate_target_power returns stored regular target + stored operating-point "
+        "target, inside the system inclusion bounds, in all three branches, against the proved contract of "
+        "Matryoshka.calculate_target_power (None = unchanged). Found and repaired a genuine defect (fix: commit in /repo).",
+        REALS + "; event-sequence quantifier carried by a class invariant required and proved preserved; sending (one Request per non-None result) not yet under contract",
+        "contract-based deductive verification (z3), modular over Matryoshka's contracts", "DESIGN.md 3 (C11)"),
 ]
 
 _PENDING = "check under construction in this session (contracts not yet written); will be claimed once its obligations discharge"
 NOT_APPLICABLE = [
     {"property_id": "C12", "reason": "formula generators are graph algorithms over networkx.DiGraph (recursive dfs, successor-set classification); no contract within reach of the VC generator expresses 'the generated formula balances for every valid graph' (DESIGN.md 4)"},
-] + [{"property_id": f"C{n:02d}", "reason": _PENDING} for n in (1, 2, 4, 5, 6, 7, 8, 9, 10, 11, 13, 14, 15, 16, 17, 18, 19, 20)]
+] + [{"property_id": f"C{n:02d}", "reason": _PENDING} for n in (1, 2, 5, 6, 7, 8, 9, 10, 13, 14, 15, 16, 17, 18, 19, 20)]
